@@ -23,8 +23,8 @@ EXTENDS AbraVM, Json, IOUtils
 Rec == ndJsonDeserialize(IOEnv.TRACE)
 N == Len(Rec)
 
-VARIABLES l, cur, viol, nstep, nval, nopen, nskip, nrw, nrwopen, nrwskip, nasm
-vars == <<l, cur, viol, nstep, nval, nopen, nskip, nrw, nrwopen, nrwskip, nasm>>
+VARIABLES l, cur, viol, nstep, nval, nopen, nskip, nrw, nrwopen, nrwskip, nasm, frames, nframe
+vars == <<l, cur, viol, nstep, nval, nopen, nskip, nrw, nrwopen, nrwskip, nasm, frames, nframe>>
 
 Ev == Rec[l]
 Has(r, f) == f \in DOMAIN r
@@ -118,6 +118,52 @@ StepDecided(ev) ==
 
 Checkable(ev) == Has(ev, "v0") /\ Modelled(ev.op) /\ ev.op \notin Resumable /\ ev.st \in {"run", "err"} /\ ArgsOk(ev)
 
+\* ------------------------------------------------------------------ calls and returns (frame discipline)
+\* frames[tid]: the call frames the validator has seen pushed in this run: [ret, base, nargs].  vm.rs: Call pushes a frame
+\* {pc of the next instruction, current base, nargs} and makes the current depth the new base; Return(n) stores the top of
+\* the stack over the first argument (cell base - n), pops the frame and cuts the stack to base - frame.nargs + 1;
+\* ReturnVoid cuts it to base - frame.nargs.
+FrameOps == {"Call", "CallFuncObj", "Return", "ReturnVoid"}
+FramesOf(t) == IF t \in DOMAIN frames THEN frames[t] ELSE <<>>
+MagInt(m) == IF m = <<>> THEN 0 ELSE m[1] + (IF Len(m) >= 2 THEN m[2] * 10000 ELSE 0) + (IF Len(m) >= 3 THEN m[3] * 100000000 ELSE 0)
+M27 == <<7728, 3421, 1>>                                  \* 2^27: a Call packs nargs into the 5 bits above the address
+CallArgs(ev) == LET qr == MDivMod(ev.args[1].v.mag, M27) IN [nargs |-> MagInt(qr[1]), addr |-> MagInt(qr[2])]
+FrameCheckable(ev) == Has(ev, "v0") /\ ev.op \in FrameOps /\ ev.st = "run" /\ Len(ev.args) = (IF ev.op = "ReturnVoid" THEN 0 ELSE 1)
+TopVal(side) == side.top[Len(side.top)]
+FrameViol(ev) ==
+  LET bad(kind, info) == {[kind |-> kind, info |-> info]}
+      fs == FramesOf(ev.tid)
+      known == fs # <<>>
+      fr == fs[Len(fs)]
+  IN CASE ev.op = "Call" ->
+            LET c == CallArgs(ev) IN
+            (IF ev.pc1 # c.addr THEN bad("vm-call-target", <<c.addr, ev.pc1>>) ELSE {})
+            \cup (IF ev.b1 # ev.d0 \/ ev.d1 # ev.d0 THEN bad("vm-call-frame", <<ev.d0, ev.b1, ev.d1>>) ELSE {})
+            \cup (IF ev.f1 # ev.f0 + 1 THEN bad("vm-call-stack", <<ev.f0, ev.f1>>) ELSE {})
+       [] ev.op = "CallFuncObj" ->
+            (IF ev.b1 # ev.d0 - 1 \/ ev.d1 < ev.d0 - 1 THEN bad("vm-call-frame", <<ev.d0, ev.b1, ev.d1>>) ELSE {})
+            \cup (IF ev.f1 # ev.f0 + 1 THEN bad("vm-call-stack", <<ev.f0, ev.f1>>) ELSE {})
+       [] ev.op = "Return" ->
+            (IF ev.f1 # ev.f0 - 1 THEN bad("vm-call-stack", <<ev.f0, ev.f1>>) ELSE {})
+            \cup (IF ev.v0.top # <<>> /\ ev.v1.top # <<>> /\ ValOf(TopVal(ev.v1)) # ValOf(TopVal(ev.v0))
+                  THEN bad("vm-return-value", <<"Return">>) ELSE {})
+            \cup (IF ~known THEN {}
+                  ELSE (IF ev.pc1 # fr.ret \/ ev.b1 # fr.base THEN bad("vm-return-frame", <<fr, ev.pc1, ev.b1>>) ELSE {})
+                       \cup (IF ev.d1 # ev.b0 - fr.nargs + 1 THEN bad("vm-return-depth", <<fr, ev.b0, ev.d1>>) ELSE {})
+                       \cup (IF ev.args[1].n # fr.nargs THEN bad("vm-return-arity", <<fr, ev.args[1].n>>) ELSE {}))
+       [] ev.op = "ReturnVoid" ->
+            (IF ev.f1 # ev.f0 - 1 THEN bad("vm-call-stack", <<ev.f0, ev.f1>>) ELSE {})
+            \cup (IF ~known THEN {}
+                  ELSE (IF ev.pc1 # fr.ret \/ ev.b1 # fr.base THEN bad("vm-return-frame", <<fr, ev.pc1, ev.b1>>) ELSE {})
+                       \cup (IF ev.d1 # ev.b0 - fr.nargs THEN bad("vm-return-depth", <<fr, ev.b0, ev.d1>>) ELSE {}))
+FramesAfter(ev) ==
+  LET fs == FramesOf(ev.tid)
+      push(f) == [t \in (DOMAIN frames) \cup {ev.tid} |-> IF t = ev.tid THEN Append(fs, f) ELSE frames[t]]
+      pop == [t \in (DOMAIN frames) \cup {ev.tid} |-> IF t = ev.tid THEN (IF fs = <<>> THEN fs ELSE SubSeq(fs, 1, Len(fs) - 1)) ELSE frames[t]]
+  IN CASE ev.op = "Call" -> push([ret |-> ev.pc + 1, base |-> ev.b0, nargs |-> CallArgs(ev).nargs])
+       [] ev.op = "CallFuncObj" -> push([ret |-> ev.pc + 1, base |-> ev.b0, nargs |-> ev.args[1].n])
+       [] OTHER -> pop
+
 \* ------------------------------------------------------------------ rewrite events
 \* symbolic instruction (driver: op + arguments {k: "top"} {k: "off", n} {k: "num", n, v} {k: "str", s, [f]} {k: "bool", b})
 FltLit(a) ==   \* the binary64 a float constant's text denotes
@@ -185,19 +231,25 @@ AsmViol(ev) ==
 
 \* ------------------------------------------------------------------ the validator
 Init == /\ l = 1 /\ cur = "" /\ viol = <<>> /\ nstep = 0 /\ nval = 0 /\ nopen = 0 /\ nskip = 0
-        /\ nrw = 0 /\ nrwopen = 0 /\ nrwskip = 0 /\ nasm = 0
+        /\ nrw = 0 /\ nrwopen = 0 /\ nrwskip = 0 /\ nasm = 0 /\ frames = <<>> /\ nframe = 0
 
 Report(set) == viol \o [i \in 1..(IF set = {} THEN 0 ELSE 1) |->
                           LET x == CHOOSE y \in set : TRUE IN
                           [kind |-> x.kind, info |-> ToString(x.info), run |-> cur, line |-> l, n |-> Cardinality(set)]]
 
 StepEv == /\ l <= N /\ Ev.e = "step" /\ l' = l + 1
-          /\ IF Checkable(Ev)
+          /\ IF FrameCheckable(Ev)
+             THEN /\ viol' = Report(FrameViol(Ev))
+                  /\ frames' = FramesAfter(Ev)
+                  /\ nframe' = nframe + 1
+                  /\ UNCHANGED <<nval, nopen, nskip>>
+             ELSE IF Checkable(Ev)
              THEN /\ viol' = Report(StepViol(Ev))
                   /\ nval' = nval + 1
                   /\ nopen' = nopen + (IF StepDecided(Ev) THEN 0 ELSE 1)
                   /\ UNCHANGED nskip
-             ELSE /\ nskip' = nskip + 1 /\ UNCHANGED <<viol, nval, nopen>>
+                  /\ UNCHANGED <<frames, nframe>>
+             ELSE /\ nskip' = nskip + 1 /\ UNCHANGED <<viol, nval, nopen, frames, nframe>>
           /\ nstep' = nstep + 1
           /\ UNCHANGED <<cur, nrw, nrwopen, nrwskip, nasm>>
 RewriteEv == /\ l <= N /\ Ev.e = "rewrite" /\ l' = l + 1
@@ -208,15 +260,15 @@ RewriteEv == /\ l <= N /\ Ev.e = "rewrite" /\ l' = l + 1
                      /\ nrwopen' = nrwopen + (IF v = "undecided" THEN 1 ELSE 0)
                      /\ UNCHANGED nrwskip
                 ELSE /\ nrwskip' = nrwskip + 1 /\ UNCHANGED <<viol, nrw, nrwopen>>
-             /\ UNCHANGED <<cur, nstep, nval, nopen, nskip, nasm>>
+             /\ UNCHANGED <<cur, nstep, nval, nopen, nskip, nasm, frames, nframe>>
 AsmEv == /\ l <= N /\ Ev.e = "asm" /\ l' = l + 1
          /\ viol' = Report(AsmViol(Ev))
          /\ nasm' = nasm + 1
-         /\ UNCHANGED <<cur, nstep, nval, nopen, nskip, nrw, nrwopen, nrwskip>>
-ResetEv == /\ l <= N /\ Ev.e = "reset" /\ l' = l + 1 /\ cur' = Ev.run
-           /\ UNCHANGED <<viol, nstep, nval, nopen, nskip, nrw, nrwopen, nrwskip, nasm>>
+         /\ UNCHANGED <<cur, nstep, nval, nopen, nskip, nrw, nrwopen, nrwskip, frames, nframe>>
+ResetEv == /\ l <= N /\ Ev.e = "reset" /\ l' = l + 1 /\ cur' = Ev.run /\ frames' = <<>>
+           /\ UNCHANGED <<viol, nstep, nval, nopen, nskip, nrw, nrwopen, nrwskip, nasm, nframe>>
 OtherEv == /\ l <= N /\ Ev.e \notin {"step", "rewrite", "asm", "reset"} /\ l' = l + 1
-           /\ UNCHANGED <<cur, viol, nstep, nval, nopen, nskip, nrw, nrwopen, nrwskip, nasm>>
+           /\ UNCHANGED <<cur, viol, nstep, nval, nopen, nskip, nrw, nrwopen, nrwskip, nasm, frames, nframe>>
 
 NextEv == StepEv \/ RewriteEv \/ AsmEv \/ ResetEv \/ OtherEv
 Spec == Init /\ [][NextEv]_vars
@@ -225,5 +277,5 @@ Done == l = N + 1
 Verdict == Done => PrintT(<<"VERDICT", ToJson([consumed |-> l - 1, events |-> N, violations |-> viol,
                                                 steps |-> nstep, steps_checked |-> nval, steps_undecided |-> nopen,
                                                 steps_unmodelled |-> nskip, rewrites |-> nrw, rewrites_undecided |-> nrwopen,
-                                                rewrites_unmodelled |-> nrwskip, assembled |-> nasm])>>)
+                                                rewrites_unmodelled |-> nrwskip, assembled |-> nasm, calls_returns |-> nframe])>>)
 =============================================================================
